@@ -143,15 +143,21 @@ CHECKS = {
     "C10": dict(
         text="Coq theorems about an executable model of the parser (the pigeon grammar REGENERATED from grammar.peg.go on every build, a "
              "pigeon-semantics interpreter, the 44 semantic actions): termination on every input from a verified well-formedness check; "
-             "fuel-independence; Thrift enum numbering; identifier, integer-constant and scope-prefix round trips; parse(render m)=m proved "
-             "end to end for typedef and enum declarations in all blank / line-break / separator styles (partial: other declaration kinds rest "
-             "on correspondence). The full round trip is refuted on the code by seven proved witnesses (known findings). Tied to the real parser "
-             "on every run: every generated text and program is parsed by both, parse trees and error lists must be equal, alongside a "
-             "model-free oracle and the -gen json descriptor as a second view.",
+             "fuel-independence; Thrift enum numbering (within the 64-bit range; the wrap beyond it is a refuted witness and known finding); "
+             "identifier, integer, constant-value, field-type and scope-prefix round trips; parse(render m)=m proved end to end for files of "
+             "typedef, enum, struct, exception and union (fields with ids, modifiers, nested container types, all separator styles), const "
+             "(integer or plain string values) and service (methods with oneway, void or typed return, arguments, throws) declarations in every "
+             "blank and line-break style (c10_roundtrip_structs_partial; partial: named types, defaults, other constant kinds, extends, scopes, "
+             "includes, comments and annotations rest on correspondence). The full round trip is refuted on the code by eight proved witnesses "
+             "(known findings). Tied to the real parser on every run in four ways: every generated text and program is parsed by both (trees and "
+             "error lists equal); every generated instance of the proved fragment is checked INSIDE Coq to satisfy the theorem's hypotheses "
+             "(checker proved sound) and to give, on the real parser, exactly the theorem's tree; a model-free oracle; the -gen json descriptor "
+             "as a second view.",
         note="Trusted: Coq kernel + vm_compute; the go/ast translator of the grammar literal (counts re-checked in Coq); hand transcription of the action bodies "
-             "and of strconv.Unquote/ParseInt/ParseFloat, strings.*, filepath.Base, two regexps (validated by correspondence only); harness as test equipment. "
-             "Error line/column not modelled. Eleven parser defects are known findings.",
-        technique="PEG interpreter model + regenerated grammar + verified wf checker + correspondence judge",
+             "and of strconv.Unquote/ParseInt/ParseFloat, strings.*, filepath.Base, two regexps (validated by correspondence, for the fragment also by the "
+             "theorem-instance judge); harness as test equipment. Error line/column not modelled. Twelve parser defects are known findings (new: C10-F22).",
+        technique="PEG interpreter model + regenerated grammar + verified wf checker + big-step derivation calculus for round-trip proofs + correspondence "
+                  "judge + theorem-instance judge",
         design="5/C10"),
     "C11": dict(
         text="Partial proof: Coq theorems over all inputs: after validation (incl. the new circular-typedef check) every typedef chain of a "
